@@ -432,6 +432,17 @@ mod regex_impl {
             }
 
             if !in_char_class {
+                // `[^]` matches any character and `[]` none
+                if c == '[' && chars.get(i + 1) == Some(&'^') && chars.get(i + 2) == Some(&']') {
+                    result.push_str("[\\s\\S]");
+                    i += 3;
+                    continue;
+                }
+                if c == '[' && chars.get(i + 1) == Some(&']') {
+                    result.push_str("[^\\s\\S]");
+                    i += 2;
+                    continue;
+                }
                 if c == '[' {
                     in_char_class = true;
                     char_class_start = true;
